@@ -518,7 +518,11 @@ impl<'a, T: ColumnProvider> ExpressionExecutionEngine<'a, T> {
                         let index = self.evaluate(index)?;
                         match index {
                             Value::Int(value) => {
-                                Ok(values.get((value - 1) as usize).cloned().unwrap_or(Value::Null))
+                                // 1-based; an index outside the array (also 0, negative or huge) gives NULL
+                                let element = value.checked_sub(1)
+                                    .and_then(|index| usize::try_from(index).ok())
+                                    .and_then(|index| values.get(index));
+                                Ok(element.cloned().unwrap_or(Value::Null))
                             }
                             _ => {
                                 Err(EvaluationError::ExpectedArrayIndexingToBeInt(index.value_type()))
